@@ -591,6 +591,24 @@ def check(ctx):
         and any(isinstance(x, ast.Expr) and isinstance(x.value, ast.Call) and norm(x.value.func) == "dependencies.update" for x in ast.walk(expand[0]))
     ctx.check(ok, "C10.R11", f"{fd.qualname}:expand", None, "a callable member is no longer replaced (removed, then updated) by its own dependencies", fd, expand[0] if expand else fd.node, detail="dependencies.remove(attr); dependencies.update(rec_deps)")
 
+    # ---------------- R12: paths yielded by validators
+    ctx.rule("C10.R12", "build_validation_error: a yielded path that is a single key (an index, a string) is wrapped before its emptiness is tested - a falsy key (index 0, '') is a location, not the absence of a path", floor=2)
+    bve = model.func("apischema.validation.errors.build_validation_error")
+    pvar = None
+    for n in walk_no_nested(bve.node):
+        if isinstance(n, ast.Assign) and isinstance(n.targets[0], ast.Tuple) and len(n.targets[0].elts) == 2 and norm(n.value) == "error":
+            pvar = norm(n.targets[0].elts[0])
+    ctx.require(pvar is not None, "build_validation_error: `path, msg = error` not found")
+    wraps = [n for n in walk_no_nested(bve.node) if isinstance(n, ast.Assign) and norm(n.targets[0]) == pvar and norm(n.value) in (f"({pvar},)", f"[{pvar}]")]
+    tests = [n for n in walk_no_nested(bve.node) if isinstance(n, ast.If) and norm(n.test) in (f"not {pvar}", pvar, f"len({pvar}) == 0", f"{pvar} == ()")]
+    ctx.check(len(wraps) == 1, "C10.R12", f"{bve.qualname}:wrap", None, "a single key is no longer wrapped into a one-element path", bve, bve.node, detail=f"{pvar} = ({pvar},)")
+    for t_ in tests:
+        before = bool(wraps) and wraps[0].lineno < t_.lineno and not any(x is wraps[0] for b in (t_.body + t_.orelse) for x in ast.walk(b))
+        ctx.check(before, "C10.R12", f"{bve.qualname}:emptiness", None,
+                  f"`if {norm(t_.test)}` is evaluated on the raw yielded value: `yield 0, msg` (the documented form for the first element of a list) is falsy and its error lands at the root instead of under [0]",
+                  bve, t_, detail="emptiness tested on the normalised path")
+    ctx.check(bool(tests), "C10.R12", f"{bve.qualname}:empty-path", None, "an empty path no longer puts the message at the root", bve, bve.node, detail="`()` -> root message", nontrivial=False)
+
 
 def fixtures(ctx):
     src = "def f(xs, i=0):\n    for i, x in enumerate(xs):\n        f(xs[i:])\n        f(xs[i + 1:])\n"
@@ -607,6 +625,8 @@ def fixtures(ctx):
 
 
 def mutants(mb):
+    mb.add_text("path-truthiness-on-raw-key", "apischema/validation/errors.py", "        if path is None:\n            path = ()\n        elif isinstance(path, str) or not isinstance(path, Collection):\n            path = (path,)  # a single key, possibly falsy (index 0, empty string)\n        if not path:\n            messages.append(msg)\n        else:\n",
+                "        if not path:\n            messages.append(msg)\n        else:\n            if isinstance(path, str) or not isinstance(path, Collection):\n                path = (path,)\n", "C10.R12", "emptiness")
     D = "apischema/validation/dependencies.py"
     mb.add_text("deps-own-namespace", D, "        if not hasattr(cls, attr):\n            continue\n        member = getattr(cls, attr)\n", "        if attr not in vars(cls):\n            continue\n        member = vars(cls)[attr]\n", "C10.R11", "mro-lookup")
     mb.add_text("deps-dict-lookup", D, "        if not hasattr(cls, attr):\n            continue\n        member = getattr(cls, attr)\n", "        if attr not in cls.__dict__:\n            continue\n        member = cls.__dict__[attr]\n", "C10.R11", "mro-lookup")
